@@ -24,6 +24,8 @@ pub enum BOp {
     SetServer(String),
     SetAllow(Vec<u8>),
     AllowMethod(u8),
+    /// set_content_length(..): the application overrides (or removes) the length explicitly
+    SetContentLength(Option<i32>),
 }
 
 #[derive(Clone, Debug, PartialEq, Eq)]
@@ -67,6 +69,10 @@ impl Recipe {
                     r.allow_method(method_of(*m));
                     s.allow.push(*m);
                 }
+                BOp::SetContentLength(n) => {
+                    r.set_content_length(*n);
+                    s.content_length = n.map(|x| x as i64);
+                }
             }
         }
         (r, s)
@@ -89,6 +95,13 @@ impl Recipe {
                             BOp::SetServer(x) => J::Arr(vec![json::s("set_server"), json::s(x)]),
                             BOp::SetAllow(ms) => J::Arr(vec![json::s("set_allow"), J::Arr(ms.iter().map(|m| json::u(*m as usize)).collect())]),
                             BOp::AllowMethod(m) => J::Arr(vec![json::s("allow_method"), json::u(*m as usize)]),
+                            BOp::SetContentLength(n) => J::Arr(vec![
+                                json::s("set_content_length"),
+                                match n {
+                                    Some(x) => json::i(*x as i64),
+                                    None => J::Null,
+                                },
+                            ]),
                         })
                         .collect(),
                 ),
@@ -111,6 +124,7 @@ impl Recipe {
                     a.get(1).and_then(|x| x.arr()).ok_or("allow")?.iter().map(|m| m.usize().unwrap_or(0) as u8).collect(),
                 ),
                 "allow_method" => BOp::AllowMethod(a.get(1).and_then(|x| x.usize()).ok_or("m")? as u8),
+                "set_content_length" => BOp::SetContentLength(a.get(1).and_then(|x| x.int()).map(|x| x as i32)),
                 _ => return Err(format!("unknown builder op {}", k)),
             });
         }
@@ -183,7 +197,7 @@ pub fn gen_recipe(rng: &mut Rng, max_ops: usize, max_body: usize) -> Recipe {
     let n = rng.weighted(&[15, 30, 25, 15, 10, 5]).min(max_ops);
     let mut program = Vec::new();
     for _ in 0..n {
-        program.push(match rng.weighted(&[35, 12, 10, 10, 10, 10, 13]) {
+        program.push(match rng.weighted(&[35, 12, 10, 10, 10, 10, 13, 5]) {
             0 => BOp::SetBody(gen_body(rng, max_body)),
             1 => BOp::SetContentType(rng.below(2) as u8),
             2 => BOp::SetDeprecation,
@@ -193,7 +207,16 @@ pub fn gen_recipe(rng: &mut Rng, max_ops: usize, max_body: usize) -> Recipe {
                 let k = rng.below(4);
                 BOp::SetAllow((0..k).map(|_| rng.below(3) as u8).collect())
             }
-            _ => BOp::AllowMethod(rng.below(3) as u8),
+            6 => BOp::AllowMethod(rng.below(3) as u8),
+            _ => BOp::SetContentLength(match rng.below(8) {
+                0 | 1 => None,
+                2 => Some(0),
+                3 => Some(-1),
+                4 => Some(i32::MIN),
+                5 => Some(i32::MAX),
+                6 => Some(rng.range(1, 5000) as i32),
+                _ => Some(-(rng.range(2, 100000) as i32)),
+            }),
         });
     }
     Recipe { version, code, program }
@@ -758,6 +781,9 @@ impl Prop for C05 {
         let mut sink = ScriptSink { last_eintr: false, beh: case.sink.clone(), idx: 0, accepted: vec![], calls: 0, fail_after: case.fail_after };
         let mut expected_all: Vec<u8> = Vec::new();
         let mut specs: Vec<RespSpec> = Vec::new();
+        // was the length set or removed explicitly? (then the presence rule does not apply, and the
+        // stream is self-delimiting only if the explicit value happens to agree with the body)
+        let mut explicit: Vec<bool> = Vec::new();
         let mut nontrivial = false;
         let mut failed = false;
         for (i, recipe) in case.recipes.iter().enumerate() {
@@ -780,6 +806,12 @@ impl Prop for C05 {
                     BOp::SetServer(_) => 32,
                     BOp::SetAllow(m) => 40 + m.len() as u64,
                     BOp::AllowMethod(m) => 50 + *m as u64,
+                    BOp::SetContentLength(n) => match n {
+                        None => 60,
+                        Some(x) if *x < 0 => 61,
+                        Some(0) => 62,
+                        Some(_) => 63,
+                    },
                 });
             }
             let exp = serialize_response(&spec);
@@ -841,6 +873,7 @@ impl Prop for C05 {
                 return viol("silent-truncation", i, "write_all returned Ok but the sink refused bytes".into());
             }
             expected_all.extend(exp);
+            explicit.push(recipe.program.iter().any(|op| matches!(op, BOp::SetContentLength(_))));
             specs.push(spec);
         }
         if sink.beh.iter().any(|b| matches!(b, WrOp::Eintr)) && sink.calls > 0 {
@@ -851,6 +884,17 @@ impl Prop for C05 {
         }
         sig.u(case.sink.len() as u64 * 4 + case.fail_after.is_some() as u64);
         // independent reader over the concatenation of everything completely written
+        let self_delimiting = specs.iter().all(|s| {
+            let bl = s.body.as_ref().map(|b| b.len()).unwrap_or(0) as i64;
+            match s.content_length {
+                Some(n) => n == bl,
+                None => bl == 0,
+            }
+        });
+        if !self_delimiting {
+            st.probe("explicit_length_disagrees_with_body");
+            return Ok(RunOut { violation: None, nontrivial, sig: sig.get(), trace_hash: sig.get() });
+        }
         let (resps, used) = match read_responses(&expected_all) {
             Ok(x) => x,
             Err(e) => return viol("reader-rejects", 0, format!("independent reader: {}", e)),
@@ -869,7 +913,7 @@ impl Prop for C05 {
             }
             // Content-Length rule
             let cl = r.header("Content-Length");
-            let must_have = (s.code != 100 && s.code != 204) || s.body.is_some();
+            let must_have = if explicit[i] { s.content_length.is_some() } else { (s.code != 100 && s.code != 204) || s.body.is_some() };
             if must_have != cl.is_some() {
                 return viol("content-length-presence", i, format!("response #{} status {} body set {}: Content-Length present = {}", i, s.code, s.body.is_some(), cl.is_some()));
             }
